@@ -11,6 +11,7 @@ EXPLANATION = ("C17 (narrow): header writes are dominated by the capacity test i
                "sizeof(v) bytes; a duplicate owns fresh storage. The chunk arithmetic as such (headroom preservation, slack "
                "split) is value-level and not decided."
                " Also: header insert/append move and place bytes using the header length as it was before the call (R5).")
+EXPLANATION += ' Round 3: only the nni_chunk_* primitives write chunk fields (R6).'
 
 
 def rule_r1(ctx):
